@@ -73,6 +73,17 @@ impl World {
         self.bound.push((a.clone(), hex.to_owned()));
         a
     }
+    /// The model refers to an id the real code never generated (the real code has
+    /// already diverged from the model at an earlier step, which the judge reports):
+    /// keep replaying with a synthetic id so that the log stays complete.
+    fn hex_or_synthetic(&mut self, abs: &str) -> String {
+        if let Some(h) = self.hex_of(abs) {
+            return h.to_owned();
+        }
+        let hex = format!("{:020x}", 0xdead_0000u64 + self.bound.len() as u64);
+        self.bound.push((abs.to_owned(), hex.clone()));
+        hex
+    }
     fn repo_name_of(&self, p: &Path) -> String {
         match p.strip_prefix(&self.repos_dir) {
             Ok(rest) if rest.components().count() == 1 => rest.to_string_lossy().into_owned(),
@@ -222,14 +233,16 @@ fn step(w: &mut World, rng: &mut ChaCha20Rng, s: &Value) -> Result<Value, String
         "WriteId" => {
             let content = match BAD_IDS.iter().find(|(n, _)| *n == x) {
                 Some((_, c)) => c.to_string(),
-                None => w.hex_of(x).ok_or_else(|| format!("WriteId: id {x} was never generated"))?.to_owned(),
+                None => w.hex_or_synthetic(x),
             };
             fs::write(w.repo(r).join("config-id"), content).map_err(io)?
         }
         "Edit" => {
-            let hex = w.hex_of(d).ok_or_else(|| format!("Edit: id {d} was never generated"))?.to_owned();
+            let hex = w.hex_or_synthetic(d);
             let text = CONTENTS.iter().find(|(n, _)| *n == x).ok_or("Edit: unknown content")?.1;
-            fs::write(w.cfg_root.join(hex).join("config.toml"), text).map_err(io)?
+            // if the real code never created this config dir the write fails; the
+            // observation then differs from the model, which is what the judge reports
+            let _ = fs::write(w.cfg_root.join(hex).join("config.toml"), text);
         }
         "Load" => {
             // a new SecureConfig per load: a new jj process (no cache)
